@@ -1443,8 +1443,76 @@ func spaces(thorough bool) []space {
 			}
 		}
 	}})
+	// ---- G: the change output crosses the dust limit somewhere ALONG the ramp.
+	// The value lattice of A/E sits at budget+dust and relay-fee+dust, i.e. where
+	// the FIRST tx or the tx paying the whole budget loses its change. Here the
+	// value is (fee at a structural rate of the schedule) + dust +-1 for the
+	// effective starting rate, the rate one above it, the middle of the ramp and
+	// the real ceiling min(floor(budget/size), max) - whose fee is usually
+	// budget-1, not budget - so that a later BUMP (not the first tx) cannot be
+	// built any more, the set fails and is retried. Schedules are long enough
+	// (deadline h+5 / h+6, every subset of the heights) for a failed set to be
+	// retried at least twice before the conf target drops to <= 1 and the fee
+	// function collapses to its ceiling: publish, failed bump, failed retry,
+	// second retry are four events on distinct heights, the last one no later
+	// than deadline-2. Explicit and estimator-chosen starts; budget-bound
+	// (tight: ceiling a few sat/kw above the start; roomy) and max-bound ceilings.
+	sp = append(sp, space{"G:dust-crossing-along-ramp+retries", func(emit func(Scenario)) {
+		one := &Scenario{Inputs: []InSpec{{Value: 1, Budget: 1}}}
+		W := syntheticWeight(one, changeTR)
+		ds := []int32{5, 6}
+		if thorough {
+			ds = []int32{4, 5, 6, 7}
+		}
+		type startEst struct{ start, est int64 }
+		ses := []startEst{{0, relay}, {0, estIn}, {400, relay}}
+		if thorough {
+			ses = append(ses, startEst{254, relay}, startEst{2_000, relay}, startEst{400, estIn})
+		}
+		for _, mx := range maxes {
+			for _, x := range ses {
+				s0 := x.start
+				if s0 == 0 {
+					s0 = x.est
+				}
+				bs := []int64{feeAt(s0, W) + 3, 5_000}
+				if thorough {
+					bs = append(bs, feeAt(s0, W)+1, feeAt(mx*250, W)+1)
+				}
+				for _, b := range dedup64(bs, 1) {
+					ceil := b * 1000 / W
+					if mx*250 < ceil {
+						ceil = mx * 250
+					}
+					s := s0
+					if s > ceil {
+						s = ceil
+					}
+					rates := []int64{s, s + 1, (s + ceil) / 2, ceil}
+					if thorough {
+						rates = append(rates, s+(ceil-s)/4, ceil-1)
+					}
+					var vs []int64
+					for _, r := range dedup64(rates, 1) {
+						f := feeAt(r, W)
+						vs = append(vs, f+dust-1, f+dust, f+dust+1)
+					}
+					for _, val := range dedup64(vs, 1) {
+						for _, imm := range []bool{false, true} {
+							for _, d := range ds {
+								for _, bl := range allSubsets(d + 1) {
+									emit(Scenario{Kind: "pipe", Inputs: []InSpec{{Value: val, Budget: b, Start: x.start, Immediate: imm}},
+										MaxFeeRateVB: mx, Relay: relay, EstFee: x.est, Delta: d, Blocks: bl})
+								}
+							}
+						}
+					}
+				}
+			}
+		}
+	}})
 	// cheap, targeted spaces first so that a time cap cuts the big lattice last
-	order := map[string]int{"D": 0, "E": 1, "F": 2, "W": 3, "B": 4, "C": 5, "A2": 6, "A": 7}
+	order := map[string]int{"D": 0, "E": 1, "G": 2, "F": 3, "W": 4, "B": 5, "C": 6, "A2": 7, "A": 8}
 	sort.SliceStable(sp, func(i, j int) bool {
 		return order[strings.SplitN(sp[i].name, ":", 2)[0]] < order[strings.SplitN(sp[j].name, ":", 2)[0]]
 	})
@@ -1588,7 +1656,7 @@ func TestC18Pipe(t *testing.T) {
 	cov := map[string]any{
 		"evaluations":               evals,
 		"distinct_nontrivial":       len(distinct),
-		"rule":                      "publisher: every scenario of the listed spaces (input (value,budget) lattices around each fee/dust/budget threshold +-1, required-output inputs, wallet top-ups, MaxFeeRate 3 and 1000 sat/vb, estimator at floor/in range/above ceiling/below floor/error, explicit starting rates, every subset of the block heights up to one past the deadline, wide deadlines 144/1008/default/1009, mempool-reject and publish-failure masks) run on the real UtxoSweeper+BudgetAggregator+TxPublisher; an evaluation = one scenario; distinct_nontrivial = distinct observation hashes (sequence of (call, height, inputs, fee, weight, change?, answer) of the txs handed to the wallet) among scenarios where at least one tx was handed over",
+		"rule":                      "publisher: every scenario of the listed spaces (input (value,budget) lattices around each fee/dust/budget threshold +-1, required-output inputs, wallet top-ups, MaxFeeRate 3 and 1000 sat/vb, estimator at floor/in range/above ceiling/below floor/error, explicit starting rates, every subset of the block heights up to one past the deadline, wide deadlines 144/1008/default/1009, mempool-reject and publish-failure masks; values at fee(rate)+dust+-1 for the start / start+1 / mid-ramp / ceiling rate of the schedule with deadlines h+5 and h+6 so that a bump fails mid-ramp and the set is retried twice before deadline-1) run on the real UtxoSweeper+BudgetAggregator+TxPublisher; an evaluation = one scenario; distinct_nontrivial = distinct observation hashes (sequence of (call, height, inputs, fee, weight, change?, answer) of the txs handed to the wallet) among scenarios where at least one tx was handed over",
 		"samples":                   samples.List(),
 		"outcome_classes":           classes,
 		"scenarios_per_space":       perSpace,
